@@ -26,13 +26,13 @@ P = {
  "C20": ("exploration", "reference-model monitor (Go map) over Add/Flush/reopen programs + raw-file structural invariants after every flush", "4/C20"),
 }
 TEXT = {
- "C01": ("Every generated CSV x configuration is ingested by the real code and read back through the blocks (and through `wrgl export`, also via the cached branch-file commit route with the edit in the cache entry's second; a spill file that comes back short must fail the ingest); a sort+dedupe model over the encoding/csv parse of the exact bytes decides. Held-on-observed over ~480 (quick) / ~30 000 (thorough) ingests incl. 64 KiB boundary cells, spills and 1..16-worker runs; not a proof over all CSVs.",
+ "C01": ("Every generated CSV x configuration is ingested by the real code and read back through the blocks (and through `wrgl export`, also via the cached branch-file commit route with the edit in the cache entry's second; a spill file that comes back short must fail the ingest; first commit from a configured file; `diff --branch-file` between cached commits); a sort+dedupe model over the encoding/csv parse of the exact bytes decides. Held-on-observed over ~480 (quick) / ~30 000 (thorough) ingests incl. 64 KiB boundary cells, spills and 1..16-worker runs; not a proof over all CSVs.",
          "encoding/csv as the reference for what a file says; which duplicate survives is free; meow collision resistance"),
  "C02": ("Metamorphic: >=20 ingests of one logical table (permutations, spill counts, workers, delimiters, badger, CLI) must give one table id and single mutations must change it; plus the CLI 'file hasn't changed' path and re-keying of a branch file (subset / reorder / no key) through the commit cache, incl. a branch file behind a symbolic link. Exploration over 60/2000 base tables.",
          "unique keys; hash collision resistance assumed"),
  "C03": ("The structural monitor (row count, block sizes, strict key order, block-index entries recomputed with an independent encoder, exact lookups, table index, profile, doctor) runs on every table produced by ingest, doctor resolve and re-ingest here, and on merge results and received tables inside C05/C07/C09/C12/C13.",
          "doctor's blind spots bound the 'no issue' clause; independent string-list encoder in the harness"),
- "C04": ("The complete diff event stream of the real differ is compared with a set-difference model keyed by key hash for (T1,T2), (T2,T1), (T1,T1) over generated table pairs incl. empty sides and shifted block boundaries; the events are also resolved back to rows through the readers the diff command uses, and the CSV report of `wrgl diff --no-gui` is parsed and judged.",
+ "C04": ("The complete diff event stream of the real differ is compared with a set-difference model keyed by key hash for (T1,T2), (T2,T1), (T1,T1) over generated table pairs incl. empty sides and shifted block boundaries; the events are also resolved back to rows through the readers the diff command uses, the CSV report of `wrgl diff --no-gui` and the summary of `wrgl diff --all` are parsed and judged, and a single failing store read must surface as an error.",
          "inputs are C03-valid tables with unique keys; common keys under differing columns are don't-cares; keyless tables with differing column lists are not diffed row by row by design and not judged"),
  "C05": ("A cell-level reference merge with explicit don't-cares is compared with Merger/RowCollector output through three paths (rows, blocks+ingest+structural monitor, real `wrgl merge`). All structural classes are judged (the key-not-first class was an open finding until its repair e14f703); for keyless tables whose columns change wrgl (since a repair) refuses the merge, which is accepted for that class only.",
          "N<=3 branches; the interactive merge UI is not driven; cells where the statement gives no rule accept any outcome"),
@@ -42,9 +42,9 @@ TEXT = {
          "in-memory transport; sender's precondition (tables of common commits complete at the destination) is respected"),
  "C08": ("ClosedSetsFinder outputs over exhaustive small DAG shapes, random DAGs and growing merge families are judged against harness-computed ancestor sets, with a counted-store-reads bound standing in for 'polynomial'; duplicate wants and a further round after a refusal included.",
          "work bound 8(n+r)^2+64 on the stated families; repeated entries are not judged in themselves"),
- "C09": ("Real `wrgl fetch/push/pull` (and UploadPackSession directly) run in-process against a reference HTTP server built from wrgl's own finder/sender/receiver; object and ref snapshots of both sides plus the server's request log decide completeness, identity and idempotence; a quarter of the exchanges are retries after an attempt interrupted by an injected store failure, single-branch fetches face remotes with off-branch tags, full fetches follow earlier shallow ones, and pushes come from shallow clones.",
+ "C09": ("Real `wrgl fetch/push/pull` (and UploadPackSession directly) run in-process against a reference HTTP server built from wrgl's own finder/sender/receiver; object and ref snapshots of both sides plus the server's request log decide completeness, identity and idempotence; a quarter of the exchanges are retries after an attempt interrupted by an injected store failure, single-branch fetches face remotes with off-branch tags, full fetches follow earlier shallow ones (incl. refs created on commits left shallow, and `fetch tables`), and pushes come from shallow clones.",
          "the reference server (harness/refserver) is trusted; no authentication, retries or real wrgld"),
- "C10": ("Ref values and full reflogs before/after real fetch (also --all from configured refspecs)/push (tags from several source spellings)/pull/merge commands, judged against the harness graph model: forward-only moves without force, tags never clobbered, rejections reported while other refs still update, exact fast-forward, faithful reflog entries.",
+ "C10": ("Ref values and full reflogs before/after real fetch (also --all from configured refspecs)/push (tags from several source spellings)/pull/merge commands, judged against the harness graph model: forward-only moves without force (also for merge targets spelled below the branch and for shallow merged commits), tags never clobbered (also hierarchical tag names), rejections reported while other refs still update, exact fast-forward, faithful reflog entries.",
          "client-side gating only; the reference server applies what it is sent"),
  "C11": ("All labelled commit DAGs with <=2 parents up to n=5 (quick) / n=6 (thorough) x four timestamp modes: IsAncestorOf for all pairs, history walks, SeekCommonAncestor for all pairs and triples, against harness ancestor sets; plus interrupted and resumed walks on CommitsQueue (RemoveAncestors, PopUntil) against a model. Exhaustive within the bound, sampled beyond.",
          "which common ancestor is chosen is free unless an input is one"),
@@ -52,11 +52,11 @@ TEXT = {
          "objects that never belonged to a commit are don't-cares"),
  "C13": ("Fault enumeration: for every scenario EVERY persistent write position is visited, once killing the real `wrgl` process before the write (SIGKILL via verifhook) and once failing the write; the reopened repository must satisfy the invariant monitor and a re-run must reach the uninterrupted outcome. Scenarios: commit (new, existing, shared-table, reverted data), merge (ff, no-ff, real), prune, transaction commit, fetch and pull against the in-worker reference server. Also in-process over recording stores for ingest, receive, prune.",
          "a single badger update / SQL transaction is atomic and durable against process death; crashes inside a write and power loss are not modelled"),
- "C14": ("Fault enumeration over every store operation (reads and writes) of transaction Commit and Discard, as error and as process death, x every branch mix up to 3, each 4 times (map order), plus the real `wrgl transaction commit` killed/failed at every write, plus unrelated commits landing on already-moved branches before the re-run, plus a foreign read cursor on the SQLite file during each branch move, plus the double-commit/discard sequences; the atomicity oracle inspects heads, reflogs (txid entries), status and staged refs and re-runs.",
+ "C14": ("Fault enumeration over every store operation (reads and writes) of transaction Commit and Discard, as error and as process death, x every branch mix up to 3, each 4 times (map order), plus the real `wrgl transaction commit` killed/failed at every write, plus unrelated commits landing on already-moved branches before the re-run, plus a foreign read cursor on the SQLite file during each branch move, plus discard after a half-applied commit, reapply after later work, hierarchical branch names, plus the double-commit/discard sequences; the atomicity oracle inspects heads, reflogs (txid entries), status and staged refs and re-runs.",
          "concurrent committers of one transaction are not modelled"),
  "C15": ("Every return value of the ref store (SQL memory/file, file store) is compared step by step with a map + per-name log model over an alphabet built to expose wildcard, case and prefix confusion; concurrent clients on one SQLite file are checked for linearizability per name with porcupine (failed operations left open with unknown effect) and for reflog-chain integrity.",
          "rename/copy onto existing names must fail without effect; file store restricted to what it implements"),
- "C16": ("All pipelines run under the Go race detector with synchronisation-free yields at the shared-state touch points, varying workers and GOMAXPROCS; every race report is attributed to the case and classified by its accessing frames; results must equal the single-worker run; store errors injected into ingest, diff and merge - and into the real binary's commit and merge with default progress bars - must surface and return, hangs judged by goroutine state; progress trackers are started, consumed and stopped the way the commands do it.",
+ "C16": ("All pipelines run under the Go race detector with synchronisation-free yields at the shared-state touch points, varying workers and GOMAXPROCS; every race report is attributed to the case and classified by its accessing frames; results must equal the single-worker run; store errors injected into ingest, diff and merge - and into the real binary's commit and merge with default progress bars - must surface and return, hangs judged by goroutine state; progress trackers are started, consumed and stopped the way the commands do it; store errors also hit ingests that are merging spill files.",
          "schedules are sampled, not enumerated; the detector only sees synchronisation it intercepts"),
  "C17": ("Structured mutation of valid encodings (every truncation, bit flips, every 1/2/4-byte window x 11 boundary values, every 1/2-byte window x small indices 2..17, two-field forgeries, splices, mutually inconsistent well-formed objects) for 18 decoder entry points and ObjectReceiver.Receive; per input: returns, no panic/death (6 GiB address-space limit, canary file), allocation and Read-call bounds, a re-timed work bound, and nothing rejected left visible. Three s2-related signatures are open known findings.",
          "inputs sampled around valid encodings; Decode functions without error return are not entry points"),
